@@ -138,3 +138,139 @@ func slowPeer(t *testing.T, run *evid.Run) map[string]any {
 	return map[string]any{"cases": cases, "cases_with_full_send_queue_at_release": full, "unsubscriptions_received": unsubs,
 		"space": "stall placement {before, after attach} x messages published while stalled 0..free slots of the peer's send queue"}
 }
+
+// replacedStream: a second stream for the SAME (peer, link) tuple is attached
+// while the first one is still around (healthy, or stuck in a write because
+// the peer stopped reading it); the peer closes the old stream at some point.
+// After the node's only subscription is released and the sweep ran, the newest
+// stream - the one the peer is listening on - must have been told
+// Subscribe=false (if it was ever told Subscribe=true).
+func replacedStream(t *testing.T, run *evid.Run) map[string]any {
+	cases, told := 0, 0
+	type variant struct {
+		stallOld     bool
+		subFirst     bool // the node subscribes before the second stream is attached
+		closeOld     int  // 0 never, 1 before the release, 2 after the release
+		settleBefore bool // let the router settle between attaching the new stream and closing the old one
+	}
+	var vs []variant
+	for _, so := range []bool{false, true} {
+		for _, sf := range []bool{false, true} {
+			for co := 0; co < 3; co++ {
+				for _, sb := range []bool{false, true} {
+					vs = append(vs, variant{so, sf, co, sb})
+				}
+			}
+		}
+	}
+	for _, v := range vs {
+		var toldNew []bool
+		synctest.Test(t, func(t *testing.T) {
+			ctx, cancel := context.WithCancel(context.Background())
+			ps, err := floodsub.NewFloodSub(ctx, discardLogger(), nil, &floodsub.Config{})
+			if err != nil {
+				evid.Fatal("NewFloodSub: %v", err)
+			}
+			go func() { _ = ps.Execute(ctx) }()
+			settle := func() { time.Sleep(250 * time.Millisecond); synctest.Wait() }
+			P := keys[1]
+			tpl := pubsub.PeerLinkTuple{PeerID: P.ID, LinkID: 1}
+			lnk := &fakes.MountedLink{UUID: 1, Local: keys[0].ID, Remote: P.ID}
+			mkWire := func(rec *[]bool) *ref.Wire {
+				w := ref.NewWire()
+				df := &ref.Deframer{}
+				w.Tap = func(from int, b []byte) {
+					if from != 0 {
+						return
+					}
+					for _, fr := range df.Push(b) {
+						pkt := &floodsub.Packet{}
+						if pkt.UnmarshalVT(fr) != nil {
+							continue
+						}
+						for _, so := range pkt.GetSubscriptions() {
+							if so.GetChannelId() == ch1 && rec != nil {
+								*rec = append(*rec, so.GetSubscribe())
+							}
+						}
+					}
+				}
+				return w
+			}
+			attach := func(w *ref.Wire) {
+				ps.AddPeerStream(tpl, false, &fakes.MountedStream{Strm: w.End(0), Proto: floodsub.FloodSubID, Peer: P.ID, Link: lnk})
+				pkt, _ := (&floodsub.Packet{Subscriptions: []*floodsub.SubscriptionOpts{{ChannelId: ch1, Subscribe: true}}}).MarshalVT()
+				w.End(1).Write(ref.Frame(pkt))
+			}
+			w1 := mkWire(nil)
+			attach(w1)
+			settle()
+			if v.stallOld {
+				w1.SetStall(0, true)
+			}
+			var sub pubsub.Subscription
+			subscribe := func() {
+				sub, err = ps.AddSubscription(ctx, keys[0].Priv, ch1)
+				if err != nil {
+					evid.Fatal("AddSubscription: %v", err)
+				}
+				settle()
+			}
+			if v.subFirst {
+				subscribe()
+			}
+			w2 := mkWire(&toldNew)
+			attach(w2)
+			if v.settleBefore {
+				settle()
+			}
+			if v.closeOld == 1 {
+				w1.End(1).Close()
+			}
+			settle()
+			if !v.subFirst {
+				subscribe()
+			}
+			sub.Release()
+			settle()
+			if v.closeOld == 2 {
+				w1.End(1).Close()
+				settle()
+			}
+			settle()
+			w1.SetStall(0, false)
+			settle()
+			settle()
+			cancel()
+			w1.End(0).Close()
+			w1.End(1).Close()
+			w2.End(0).Close()
+			w2.End(1).Close()
+			synctest.Wait()
+			floodsub.VerifStopJanitor(ps)
+		})
+		cases++
+		desc := fmt.Sprintf("old stream %s, node subscribes %s the second stream is attached, peer closes the old stream %s, settle-before-close=%v",
+			map[bool]string{false: "healthy", true: "stuck in a write (peer not reading it)"}[v.stallOld],
+			map[bool]string{false: "after", true: "before"}[v.subFirst],
+			[]string{"never", "before the release", "after the release"}[v.closeOld], v.settleBefore)
+		everTrue := false
+		for _, b := range toldNew {
+			if b {
+				everTrue = true
+			}
+		}
+		if everTrue {
+			told++
+			if toldNew[len(toldNew)-1] {
+				run.Violation("unsubscribe-not-announced/replaced-stream", fmt.Sprintf("a second stream for the same (peer, link) was attached (%s); the node released its only subscription to %s and the sweep ran: the announcements received on the newest stream are %v", desc, ch1, toldNew),
+					map[string]any{"variant": desc, "told_on_newest_stream": toldNew})
+			}
+		}
+	}
+	if told == 0 {
+		evid.Fatal("replaced stream: vacuous (%d cases, none announced the channel on the second stream)", cases)
+	}
+	return map[string]any{"cases": cases, "cases_in_which_the_newest_stream_was_told_subscribe": told,
+		"space": "old stream {healthy, stuck in a write} x node subscribes {before, after} the second attach x peer closes the old stream {never, before, after the release} x {settle, no settle} between attach and close"}
+}
